@@ -41,7 +41,7 @@ def main():
         hooks_commits = [l.split()[0] for l in open(hp) if l.strip() and not l.startswith("#")]
     man = dict(
         version=1,
-        setup_cmd="python3-vt -m vf.build --all",
+        setup_cmd="python3-vt -m vf.build --all && python3-vt -m vf.fuzzbuild",
         hooks=dict(guard="ASL_VERIF",
                    enable="cmake -DCMAKE_C_FLAGS=-DASL_VERIF (done by vf/build.py for every flavour under /verif/build)",
                    baseline_off_cmd="cmake -G Ninja -S /repo -B /repo/_build && cmake --build /repo/_build && "
